@@ -1431,6 +1431,20 @@ impl Runner for ServiceRunner {
                 out.push(format!("!OP spermit {}", x));
                 out.push("ok".into());
             }
+            // the application drops its event stream and subscribes again: events flow to the new one
+            ["sevresub", _] => {
+                let rt = self.rt.as_ref().unwrap();
+                let inst = self.insts.get_mut(&x).unwrap();
+                // (close the old receiver first: the service only notices on its next event)
+                inst.events.close();
+                match rt.block_on(inst.discv5.event_stream()) {
+                    Ok(ev) => inst.events = ev,
+                    Err(_) => return noop(out),
+                }
+                stats.bump("s.event-stream-resubscribed");
+                out.push(format!("!OP sevresub {}", x));
+                out.push("ok".into());
+            }
             // the application stops / resumes reading its event stream; what piled up is discarded
             ["sevpause", _] => {
                 self.insts.get_mut(&x).unwrap().events_paused = true;
@@ -2424,6 +2438,13 @@ fn gen_c17(rng: &mut Rng, ops: &mut Vec<String>, stats: &mut Stats) {
                 ops.push(format!("sest A k{}:1:{}:0 = i", s, sh));
             }
         }
+    }
+    if rng.chance(1, 6) {
+        // the application drops its event stream and subscribes again (before or after some events)
+        if rng.chance(1, 2) {
+            ops.push(format!("sest A k{}:1:{}:0 = i", 690, contact_shape(mode, rng)));
+        }
+        ops.push("sevresub A".into());
     }
     if rng.chance(1, 5) {
         // the application does not read its events for a while: the bounded stream overflows
